@@ -391,6 +391,42 @@ func runC09(c *core.Ctx) {
 	})
 	c.Sample(map[string]interface{}{"parser_input": "\\u3000zoo\\u00a0\\u0085か\\u3099く\\tab\\n"})
 	c.Sample(map[string]interface{}{"seed_example": hex.EncodeToString([]byte(jaNFC))[:40] + "... (NFC spelling of a Japanese sentence, U+3000 separated)"})
+	// every word count, several different valid sentences one after the other in one process (a value remembered from the
+	// previous sentence of the same size must not matter), then the caller-supplied word lists
+	lists := map[string][]string{}
+	for _, lang := range []string{"english", "japanese"} {
+		if bip39.SetWordList(lang) != nil {
+			continue
+		}
+		lists[lang] = c03ReadList(c, lang)
+		if lists[lang] == nil {
+			continue
+		}
+		for round := 0; round < 2; round++ {
+			for n := 16; n <= 64; n += 4 {
+				for v := 0; v < 3; v++ {
+					e := make([]byte, n)
+					for i := range e {
+						e[i] = byte(i*(7+2*v) + n + 91*v)
+					}
+					idx := rb39.Indices(e)
+					m := make(bip39.Mnemonic, len(idx))
+					for i, w := range idx {
+						m[i] = lists[lang][w]
+					}
+					pw := fmt.Sprint("p", v)
+					got, err := bip39.MnemonicToSeed(m, pw)
+					c.Eval(1)
+					nontriv.Add(1)
+					if want, rerr := rb39.Seed(m, pw); rerr != nil || err != nil || !bytes.Equal(got, want) {
+						c.Violate("C09/seed/every-word-count", fmt.Sprintf("MnemonicToSeed of a valid %d-word %s sentence (%q) after other sentences of the same size: %x, %v; want %x", len(m), lang, m.String(), got, err, want), map[string]interface{}{"list": lang, "sentence": m.String(), "round": round}, "", nil)
+					}
+				}
+			}
+		}
+	}
+	bip39.SetWordList("english")
+	bip39PluginPass(c, "C09", lists["english"], lists["japanese"])
 	c.NonTrivial(nontriv.Load())
 	c.SetExhaustive(true)
 	c.Assume = []string{"NFKD oracle: per-code-point decompositions and combining classes from Python's unicodedata (Unicode 14; alphabet restricted to code points assigned before Unicode 13, which is what x/text v0.4.0 ships) + own canonical reordering", "White_Space = the Unicode property list"}
